@@ -3,7 +3,7 @@
 From Coq Require Import List ZArith NArith Bool.
 From Coq.Strings Require Import Byte.
 Import ListNotations.
-From SV Require Import Text C01_Lines G_codes G_c01_io C01_Model C01_Lemmas C01_Formats C01_Dec C01_Stockholm C01_Domain C01_Gff C01_Main C01_IdPattern C01_Reader.
+From SV Require Import Text C01_Lines G_codes G_c01_io C01_Model C01_Detect C01_Lemmas C01_Formats C01_Dec C01_Stockholm C01_Domain C01_Gff C01_Main C01_IdPattern C01_Reader C01_Sniff C01_Layout.
 
 (* the FASTA id matcher of the model was written for exactly the pattern text found in /repo *)
 Theorem C01_idpattern_pinned : FASTA_IDPATTERN_CANON = IDPATTERN_PINNED.
@@ -203,6 +203,106 @@ Theorem C01_stockholm_reader_fixpoint : forall t, wf_text Stockholm t = true ->
 Proof. exact stockholm_reader_fixpoint. Qed.
 Print Assumptions C01_stockholm_reader_fixpoint.
 
+(* ---- format detection: sugar's five sniffers (fasta, genbank, stockholm, gff, sjson) tried in the plugin order of /repo ---- *)
+(* every text write() produces for a non-empty basket is recognised as its own format (SJSON: on the bytes json.dump renders) *)
+Theorem C01_written_detected : forall f b c, b <> [] -> write_w f b = Ok c -> detect (content_text c) = Some (fmt_name f).
+Proof. exact written_detected. Qed.
+Print Assumptions C01_written_detected.
+
+(* ... so the property also holds when read() is called without fmt: same objects, fixpoint from the first / second text on *)
+Theorem C01_auto_roundtrip : forall f b, wfb_basket f b = true -> b <> [] ->
+  exists t t2, write_w f b = Ok t /\ read_auto t = Ok (map (norm_of f) b)
+               /\ write_w f (map (norm_of f) b) = Ok t2 /\ read_auto t2 = Ok (map (norm_of f) b)
+               /\ (f <> Sjson -> t2 = t).
+Proof. exact auto_roundtrip. Qed.
+Print Assumptions C01_auto_roundtrip.
+
+(* GFF3 texts with any feature lines in front of the sequence section (also for an empty basket) *)
+Theorem C01_gff_fts_detected : forall fl b, detect (unlines (write_gff_lines_fts fl b)) = Some (fmt_name Gff).
+Proof. exact gff_fts_detected. Qed.
+Print Assumptions C01_gff_fts_detected.
+
+Theorem C01_gff_fts_auto : forall fts b t, write_w_fts Gff fts b = Ok t -> read_auto t = read_content Gff t.
+Proof. exact gff_fts_auto. Qed.
+Print Assumptions C01_gff_fts_auto.
+
+(* the FASTA sniffer tolerates leading whitespace inside its 50-character window *)
+Theorem C01_fasta_sniff_leading_ws : forall pre t, forallb is_ws pre = true -> no_byte cr pre = true -> length pre < 50 ->
+  is_fasta (pre ++ GT :: t) = true.
+Proof. exact fasta_sniff_leading_ws. Qed.
+Print Assumptions C01_fasta_sniff_leading_ws.
+
+(* the JSON text of any tree contains no raw tab (json.dump escapes it), which is why is_gff cannot claim an SJSON file *)
+Theorem C01_jdump_no_tab : forall t, no_byte TAB (jdump t) = true.
+Proof. exact jdump_no_tab. Qed.
+Print Assumptions C01_jdump_no_tab.
+
+(* ---- write(basket, name): os.path.splitext on POSIX names and the extension table of /repo ---- *)
+(* directories do not matter *)
+Theorem C01_basename_dir : forall d b, no_byte SLASH b = true -> basename (d ++ SLASH :: b) = b /\ basename b = b.
+Proof. exact basename_dir. Qed.
+Print Assumptions C01_basename_dir.
+
+(* the LAST suffix of the base name decides, whatever other dots and suffixes the name has *)
+Theorem C01_detect_ext_last_suffix : forall p stem e, basename p = stem ++ DOTB :: e -> no_byte DOTB e = true ->
+  all_dots stem = false -> ext_of p = e /\ detect_ext p = detect_ext_in SEQ_EXT_TABLE e.
+Proof. exact detect_ext_last_suffix. Qed.
+Print Assumptions C01_detect_ext_last_suffix.
+
+(* names without a suffix (and hidden files such as ".fasta") have no format: write raises IOError *)
+Theorem C01_ext_of_no_suffix : forall p b, no_byte DOTB (basename p) = true ->
+  ext_of p = [] /\ detect_ext p = None /\ write_byname p b = Err E_OS.
+Proof. exact ext_of_no_suffix. Qed.
+Print Assumptions C01_ext_of_no_suffix.
+
+Theorem C01_ext_of_hidden : forall p stem e, basename p = stem ++ DOTB :: e -> no_byte DOTB e = true -> all_dots stem = true ->
+  ext_of p = [] /\ detect_ext p = None.
+Proof. exact ext_of_hidden. Qed.
+Print Assumptions C01_ext_of_hidden.
+
+(* the extension table found in /repo is consistent: each extension selects the plugin that lists it, no dots, all writable *)
+Theorem C01_ext_table_ok : ext_table_ok = true.
+Proof. exact ext_table_ok_true. Qed.
+Print Assumptions C01_ext_table_ok.
+
+(* writing by name round-trips: the format is taken from the name on writing and from the content on reading *)
+Theorem C01_byname_roundtrip : forall f e p stem b, In e (ext_list f) -> basename p = stem ++ DOTB :: e -> all_dots stem = false ->
+  wfb_basket f b = true -> b <> [] ->
+  detect_ext p = Some (fmt_name f) /\ write_byname p b = write_w f b
+  /\ exists t, write_byname p b = Ok t /\ read_auto t = Ok (map (norm_of f) b).
+Proof. exact byname_roundtrip_full. Qed.
+Print Assumptions C01_byname_roundtrip.
+
+(* ---- comment / blank lines are removable ---- *)
+(* deleting every ";" line of a FASTA file changes nothing of what is read ... *)
+Theorem C01_fasta_comments_removable : forall ls st, iter_fasta st (filter not_comment ls) = iter_fasta st ls.
+Proof. exact fasta_comments_removable. Qed.
+Print Assumptions C01_fasta_comments_removable.
+
+(* ... nor does deleting every blank line as well *)
+Theorem C01_fasta_blank_comments_removable : forall ls st, iter_fasta st (filter not_skippable ls) = iter_fasta st ls.
+Proof. exact fasta_blank_comments_removable. Qed.
+Print Assumptions C01_fasta_blank_comments_removable.
+
+(* deleting every blank line, "#" comment and well-formed "#=G?" annotation line of a Stockholm file changes nothing of the
+   sequences that are read *)
+Theorem C01_stk_comments_removable : forall ls d, stk_loop (filter (fun l => negb (stk_noop l)) ls) d = stk_loop ls d.
+Proof. exact stk_comments_removable. Qed.
+Print Assumptions C01_stk_comments_removable.
+
+Theorem C01_stk_plain_comment_noop : forall l c s, strip l = c :: s -> head_is HASH (c :: s) = true ->
+  startswith (bs "#="%bs) (c :: s) = false -> stk_noop l = true.
+Proof. exact stk_plain_comment_noop. Qed.
+Print Assumptions C01_stk_plain_comment_noop.
+
+(* Stockholm: ANY number of interleaved blocks (each preceded by blank lines) reads like the per-id concatenation *)
+Theorem C01_stk_interleave_n : forall ks blocks b0 rest d, distinct ks = true ->
+  length b0 = length ks -> forallb row_ok (combine ks b0) = true -> Forall (block_ok ks) blocks ->
+  stk_loop (map row_line (combine ks b0) ++ concat (map (block_lines ks) blocks) ++ rest) d
+  = stk_loop (map row_line (combine ks (rows_all b0 blocks)) ++ rest) d.
+Proof. exact stk_interleave_n. Qed.
+Print Assumptions C01_stk_interleave_n.
+
 (* non-vacuity: a basket with a lower-case protein containing 'meta', a db-tag free id with ':' and a description header *)
 Example C01_witness_domain :
   wf_basket Fasta [(Some (bs "seq:1"%bs), bs "lametal*"%bs, Some (bs "seq:1 some protein"%bs)); (Some (bs "n2"%bs), bs "ACGU-n"%bs, None)] = true
@@ -227,3 +327,25 @@ Example C01_witness_gff_fts :
   /\ Bstr (gff_ft_line (mk_gft (bs "chr:1#a"%bs) (bs "gene"%bs) 1 4 "-"%byte)) = Bstr (bs "chr%3A1%23a"%bs ++ [x09] ++ bs "."%bs ++ [x09] ++ bs "gene"%bs ++ [x09] ++ bs "2"%bs ++ [x09] ++ bs "4"%bs ++ [x09] ++ bs "."%bs ++ [x09] ++ bs "-"%bs ++ [x09] ++ bs "."%bs ++ [x09] ++ bs "."%bs)
   /\ wf_text Stockholm (bs "# STOCKHOLM 1.0"%bs ++ [x0a] ++ bs "s1 ACGU"%bs ++ [x0a] ++ bs "#=GC SS_cons ...."%bs ++ [x0a; x0a] ++ bs "s1  meta"%bs ++ [x0a] ++ bs "//"%bs ++ [x0a]) = true.
 Proof. exact (conj eq_refl (conj eq_refl eq_refl)). Qed.
+
+Example C01_witness_detect :
+  detect (bs ">a"%bs ++ [x0a] ++ bs "AC"%bs ++ [x0a]) = Some (bs "fasta"%bs)
+  /\ is_fasta (repeat " "%byte 49 ++ bs ">a"%bs) = true /\ is_fasta (repeat " "%byte 50 ++ bs ">a"%bs) = false
+  /\ detect (bs "LOCUS x"%bs) = Some (bs "genbank"%bs)
+  /\ detect (bs "c"%bs ++ [x09] ++ bs "."%bs ++ [x09] ++ bs "gene"%bs ++ [x09] ++ bs "1"%bs ++ [x09] ++ bs "4"%bs ++ [x09] ++ bs "."%bs ++ [x09] ++ bs "+"%bs ++ [x09] ++ bs "."%bs ++ [x09] ++ bs "ID=g"%bs) = Some (bs "gff"%bs)
+  /\ detect (bs "no known format"%bs) = None
+  /\ Bstr (content_text (CTree [enc_meta []])) = "{""_cls"": ""Meta""}"%bs.
+Proof. exact (conj eq_refl (conj eq_refl (conj eq_refl (conj eq_refl (conj eq_refl (conj eq_refl eq_refl)))))). Qed.
+
+Example C01_witness_byname :
+  ext_of (bs "dir.fasta/a.b.stk"%bs) = bs "stk"%bs /\ detect_ext (bs "dir.fasta/a.b.stk"%bs) = Some (bs "stockholm"%bs)
+  /\ detect_ext (bs "x.stk/.fasta"%bs) = None /\ detect_ext (bs "a.FASTA"%bs) = None
+  /\ In (bs "fa"%bs) (ext_list Fasta) /\ all_dots (bs "a.b"%bs) = false.
+Proof. exact (conj eq_refl (conj eq_refl (conj eq_refl (conj eq_refl (conj (or_intror (or_introl eq_refl)) eq_refl))))). Qed.
+
+Example C01_witness_layout :
+  filter not_comment [bs ">a"%bs; bs ";c"%bs; bs "AC"%bs] = [bs ">a"%bs; bs "AC"%bs]
+  /\ stk_noop (bs "# a comment"%bs) = true /\ stk_noop (bs "#=GF DE some family"%bs) = true /\ stk_noop (bs "#=GF x"%bs) = false
+  /\ stk_noop (bs "s1 ACGU"%bs) = false
+  /\ rows_all [bs "AC"%bs; bs "GU"%bs] [([[]], [bs "A"%bs; bs "-"%bs]); ([], [bs "N"%bs; bs "N"%bs])] = [bs "ACAN"%bs; bs "GU-N"%bs].
+Proof. exact (conj eq_refl (conj eq_refl (conj eq_refl (conj eq_refl (conj eq_refl eq_refl))))). Qed.
